@@ -347,7 +347,7 @@ def run(ctx):
     ctx.assumptions = ['schema table written from the documented format (template tables read as a specification) and the property statement; acceptor independent of the SDK',
                        'not judged (executed only): N/F flags on known elements except a flagged duplicate of a single-valued element; publication / authentication record without calendar chain; '
                        'aggregation authentication record 0x804; UTF-8 overlong / surrogate / > U+10FFFF / lead bytes f5..f7; legacy id with empty, NUL-containing or non-UTF-8 name; 16-bit header inside metadata; '
-                       'content of DER blobs; unknown non-critical record after the publications-file signature; internal verdict for insertions inside metadata / published data',
+                       'content of DER blobs; internal verdict for insertions inside metadata / published data',
                        'publications file: only delete / duplicate / swap / unknown-record insertion on the record sequence (order rules belong to C18), all operations inside the records',
                        'ASan+UBSan build; the MAC of a PDU is not verified by parsing']
     pool.run(ctx, worker, jobs, workers=16)
